@@ -151,6 +151,11 @@ def main():
             else:
                 rep.notes.append('known finding %s no longer reproduces on its witness' % k['id'])
 
+    if hasattr(P, 'extra_stage'):
+        # property-specific stages beyond the single-context correspondence (C14: concurrent contexts, TSan)
+        for rv in P.extra_stage(rep, a.tier, seed, scripts, impl, broken):
+            rep.violation(*rv)
+
     # ---- verdicts ----
     wf = getattr(P, 'wellformed', lambda ls: True)
 
